@@ -15,7 +15,7 @@ import shutil
 from .. import codec, common, replay, tlc
 from . import aesref
 
-KEYS = {"K1": bytes(range(1, 33)), "K2": bytes(range(101, 133))}
+KEYS = {"K1": bytes(range(1, 33)), "K2": bytes(range(101, 132)) + b"\n"}  # (K2 ends in a line feed)
 SECRETS = {
     "empty": "",
     "a": "a",
@@ -36,14 +36,14 @@ def _b64(b):
     return base64.b64encode(b).decode()
 
 
-def stored_value(shape, fm="best"):
+def stored_value(shape, fm="best", own="K1"):
     """A stored secret of the named (mal)formation for a field whose method is fm.  `good` is a
     genuine ciphertext of "hello" under the field's own method and key (K1), so that the only
     thing wrong with a shape is what its name says."""
     if fm == "xor":
-        good = _b64(bytes(b ^ KEYS["K1"][i % 32] for i, b in enumerate(b"hello")))
+        good = _b64(bytes(b ^ KEYS[own][i % 32] for i, b in enumerate(b"hello")))
     else:
-        good = _b64(aesref.cbc_encrypt(KEYS["K1"], bytes(range(16)), b"hello"))
+        good = _b64(aesref.cbc_encrypt(KEYS[own], bytes(range(16)), b"hello"))
     return {
         "none": None,
         "plain-str": "plain text",
@@ -58,7 +58,7 @@ def stored_value(shape, fm="best"):
         "dict-foreign-chars-b64": {"method": "xor", "ciphertext": "!!!!"},
         "dict-aes-short": {"method": "aes", "ciphertext": _b64(b"x" * 20)},
         "dict-aes-unaligned": {"method": "aes", "ciphertext": _b64(b"y" * 40)},
-        "dict-aes-wrong-key": {"method": "aes", "ciphertext": _b64(WRONG_KEY_BLOB)},
+        "dict-aes-wrong-key": {"method": "aes", "ciphertext": _b64(aesref.cbc_encrypt(KEYS["K2" if own == "K1" else "K1"], FIXED_IV, b"secret-value-under-the-other-key"))},
         "list": ["xor", good],
         "int": 12345,
     }[shape]
@@ -97,6 +97,18 @@ class World:
         os.urandom = self.real_urandom
         shutil.rmtree(self.root, ignore_errors=True)
 
+    def on_file(self):
+        """Which key each key file holds now: {object name: key name}."""
+        out = {}
+        for n in KEYS:
+            with open(os.path.join(self.root, n), "rb") as fp:
+                data = fp.read()
+            out[n] = next((k for k, b in KEYS.items() if b == data), "<other>")
+        return out
+
+    def holder_of(self, key):
+        return next(n for n, k in self.on_file().items() if k == key)
+
     def nonce_of(self, b):
         hits = [i for i, d in enumerate(self.draws) if d == b]
         return hits[0] + 1 if len(hits) == 1 else -len(hits)
@@ -129,6 +141,7 @@ class World:
         return {
             "store": [{"sv": self.abstract_sv(sv, pt), "key": k, "pt": list(pt)} for sv, k, pt in self.store],
             "chal": self.chal_state(),
+            "onfile": self.on_file(),
         }
 
     def ensure_cfg(self, alg):
@@ -153,12 +166,25 @@ class World:
     def step(self, ev):
         cinco = self.cinco
         op = ev["op"]
+        # the key the named KeyFile object's file holds when this call opens its session
+        held = self.on_file().get(ev.get("key")) if isinstance(ev.get("key"), str) else None
         try:
+            if op == "Swap":
+                p1, p2 = os.path.join(self.root, "K1"), os.path.join(self.root, "K2")
+                with open(p1, "rb") as fp:
+                    b1 = fp.read()
+                with open(p2, "rb") as fp:
+                    b2 = fp.read()
+                with open(p1, "wb") as fp:
+                    fp.write(b2)
+                with open(p2, "wb") as fp:
+                    fp.write(b1)
+                return {"out": "ok"}
             if op == "Encrypt":
                 pt = bytes(codec.seq(ev["pt"]))
                 with self.kf[ev["key"]] as ctx:
                     sv = ctx.encrypt(pt, method=ev["m"])
-                self.store.append((sv, ev["key"], pt))
+                self.store.append((sv, held, pt))
                 return {"out": "ok", "sv": self.abstract_sv(sv, pt)}
             if op == "Decrypt":
                 sv, k, pt = self.store[ev["i"] - 1]
@@ -166,7 +192,7 @@ class World:
                     with self.kf[ev["key"]] as ctx:
                         got = ctx.decrypt(sv)
                 except Exception:  # noqa
-                    wrong = sv.method == "aes" and k != ev["key"]
+                    wrong = sv.method == "aes" and k != held
                     return {"out": "notpt" if wrong else "error", "ret": {"t": "none"}, "notpt": True}
                 if sv.method == "aes" and got != pt:
                     return {"out": "notpt", "ret": {"t": "none"}, "notpt": True}
@@ -174,7 +200,7 @@ class World:
             if op == "DecryptTruncated":
                 sv, k, pt = self.store[ev["i"] - 1]
                 cut = cinco.encryption.SecureValue(sv.method, sv.ciphertext[:32])
-                with self.kf[k] as ctx:
+                with self.kf[self.holder_of(k)] as ctx:
                     ctx.decrypt(cut)
                 return {"out": "ok"}
             if op == "DecryptBad":
@@ -184,7 +210,9 @@ class World:
                 return {"out": "ok"}
             if op == "LoadStored":
                 fm = ev.get("fm", "best")
-                self.sfields[fm].to_python(self.scfg, stored_value(ev["shape"], fm))
+                # (the configuration's key file is the file of object K1: "genuine" and "wrong key"
+                # are relative to the key that file holds now)
+                self.sfields[fm].to_python(self.scfg, stored_value(ev["shape"], fm, self.on_file()["K1"]))
                 return {"out": "ok"}
             if op == "EncryptPair":
                 pt = bytes(codec.seq(ev["pt"]))
@@ -196,8 +224,8 @@ class World:
                             sv2 = inner.encrypt(pt, method=ev["m"])
                     else:
                         sv2 = ctx.encrypt(pt, method=ev["m"])
-                self.store.append((sv1, ev["key"], pt))
-                self.store.append((sv2, ev["key"], pt))
+                self.store.append((sv1, held, pt))
+                self.store.append((sv2, held, pt))
                 return {"out": "ok", "sv": self.abstract_sv(sv1, pt), "sv2": self.abstract_sv(sv2, pt)}
             if op == "Assign":
                 self.ensure_cfg(ev["alg"])
@@ -258,6 +286,7 @@ def normalise(edges, inits):
         return {
             "store": [{"sv": sv(e["sv"]), "key": e["key"], "pt": list(codec.seq(e["pt"]))} for e in codec.seq(s["store"])],
             "chal": s["chal"],
+            "onfile": s.get("onfile", {"K1": "K1", "K2": "K2"}),
         }
 
     for e in edges:
@@ -292,7 +321,9 @@ def driver(cinco, prop, seed, n_traces, length):
             for _ in range(length):
                 r = rng.random()
                 if prop == "C08":
-                    if r < 0.08:
+                    if r > 0.96:
+                        ev = {"op": "Swap"}
+                    elif r < 0.08:
                         n = rng.choice([0, 1, 16, 33, rng.randint(0, 60)])
                         ev = {"op": "EncryptPair", "key": rng.choice(["K1", "K2"]), "m": rng.choice(["aes", "xor", "best"]), "pt": [rng.randint(0, 255) for _ in range(n)],
                               "nested": rng.random() < 0.5}
@@ -341,6 +372,7 @@ def driver(cinco, prop, seed, n_traces, length):
                         rec[k] = res[k]
                 rec["store"] = obs["store"]
                 rec["chal"] = obs["chal"]
+                rec["onfile"] = obs["onfile"]
                 events.append(rec)
         finally:
             w.close()
@@ -351,7 +383,7 @@ def driver(cinco, prop, seed, n_traces, length):
 C08_INV = ["C08_ConcreteMethod", "C08_Inverse", "C08_FreshIV", "C08_WrongKey", "C08_XorInvolution", "C08_MalformedRejected"]
 C09_INV = ["C09_Exact", "C09_SaltLen", "C09_HandWrittenHashed"]
 C09_PROP = ["C09_FreshSalt", "C09_Survives"]
-C08_OPS = ("Encrypt", "EncryptPair", "Decrypt", "DecryptBad", "DecryptTruncated", "LoadStored")
+C08_OPS = ("Swap", "Encrypt", "EncryptPair", "Decrypt", "DecryptBad", "DecryptTruncated", "LoadStored")
 C09_OPS = ("Assign", "LoadPlain", "Challenge", "SaveLoad")
 
 
